@@ -48,7 +48,9 @@ pub struct Game {
     /// WARNING: The order of the scores must match the order of the pieces
     piece_scores: [Cell<&'static [i16; 64]>; 6],
     king_positions: [Position; 2],
-    state: ArrayVec<GameState, 512>,
+    /// Room for the longest accepted game (400) plus the deepest search line
+    /// (255 plies and the captures of the quiescence search that follow them)
+    state: ArrayVec<GameState, 1024>,
 }
 
 impl Player {
@@ -540,7 +542,7 @@ impl Game {
         };
         self.current_player = self.current_player.the_other();
         self.hash ^= zobrist::BLACK_TO_MOVE;
-        self.hash ^= self.state().hash(); // SAFETY: The game will not be longer than 512 moves
+        self.hash ^= self.state().hash(); // SAFETY: The game will not be longer than 1024 moves
         unsafe {
             self.state.push_unchecked(state);
         }
